@@ -215,7 +215,7 @@ func r05_3(r *Report, p *Program) {
 func r05_4(r *Report, p *Program) {
 	const rule = "R05.4"
 	r.Rule(rule, "ApplyUpdate pipeline order and operands")
-	r.Floor(rule, 3)
+	r.Floor(rule, 5)
 	f := fn(r, p, rule, "controller/common.ApplyUpdate")
 	if f == nil {
 		return
@@ -265,6 +265,7 @@ func r05_4(r *Report, p *Program) {
 		}
 	}
 	r.Check(rule, FK(f)+"[order]", p.Pos(f.Pos()), ok, strings.Join(names, " → "), why)
+	r05_4b(r, p, rule)
 	// operands
 	upd := nu.Common().Args[0]
 	okO, whyO := true, ""
@@ -327,6 +328,77 @@ func r05_4(r *Report, p *Program) {
 			}
 		}
 		r.Check(rule, FK(rf), p.Pos(rf.Pos()), ok, "every listed field is reverted", "not every system field is reverted")
+	}
+}
+
+// r05_4b: the two helpers of the pipeline do exactly what their step stands for.
+func r05_4b(r *Report, p *Program, rule string) {
+	// revertField: observed has the field ⇒ set it on the merge result; else ⇒ remove it there
+	if rf := fn(r, p, rule, "controller/common.revertField"); rf != nil {
+		look := callsTo(rf, false, "unstructured.NestedFieldNoCopy", "unstructured.NestedFieldCopy")
+		set := callsTo(rf, false, "unstructured.SetNestedField")
+		rem := callsTo(rf, false, "unstructured.RemoveNestedField")
+		ok, why := len(look) == 1 && len(set) == 1 && len(rem) == 1, "expected one lookup in the observed object, one SetNestedField and one RemoveNestedField on the merge result"
+		if ok {
+			found := engine.ResultValue(look[0].Instr, 1)
+			isFound := func(pos bool) func(l Lit) bool {
+				return func(l Lit) bool { return l.Pos == pos && engine.SameValue(l.Cond, found) }
+			}
+			switch {
+			case !strings.Contains(E(look[0].Common().Args[0]), "(p1)"):
+				ok, why = false, "the field is not looked up in the observed object (p1)"
+			case !strings.Contains(E(set[0].Common().Args[0]), "(p0)") || !strings.Contains(E(rem[0].Common().Args[0]), "(p0)"):
+				ok, why = false, "set/remove do not act on the merge result (p0)"
+			case !engine.SameValue(set[0].Common().Args[1], engine.ResultValue(look[0].Instr, 0)):
+				ok, why = false, "the value set is not the observed value"
+			case unguarded(rf, nil, set[0].Instr.(ssa.Instruction), isFound(true)) != nil:
+				ok, why = false, "SetNestedField reachable although the observed object lacks the field"
+			case unguarded(rf, nil, rem[0].Instr.(ssa.Instruction), isFound(false)) != nil:
+				ok, why = false, "RemoveNestedField reachable although the observed object has the field"
+			default:
+				// every success return has passed one of them
+				for _, b := range rf.Blocks {
+					for _, in := range b.Instrs {
+						if rt, isR := in.(*ssa.Return); isR && engine.ReturnsNilError(rt) {
+							if bypass(rf, rt, func(x ssa.Instruction) bool {
+								return x == set[0].Instr.(ssa.Instruction) || x == rem[0].Instr.(ssa.Instruction)
+							}) != nil {
+								ok, why = false, "a success return neither restores nor removes the field: a field absent from the observed object (e.g. no .status yet) would keep the desired value and differ forever"
+							}
+						}
+					}
+				}
+			}
+		}
+		r.Check(rule, FK(rf)+"[present⇒restore, absent⇒remove]", p.Pos(rf.Pos()), ok, "observed has field ⇒ SetNestedField(result, observed value); else RemoveNestedField(result)", why)
+	}
+	// nullifyLastAppliedAnnotation: the object's annotations stay the same map, minus the one key
+	if nf := fn(r, p, rule, "controller/common.nullifyLastAppliedAnnotation"); nf != nil {
+		sets := callsTo(nf, false, "Unstructured.SetAnnotations")
+		ok, why := len(sets) >= 1, "no SetAnnotations"
+		for _, cs := range sets {
+			arg := cs.Arg(0)
+			if !engine.MustSlice(arg, func(x ssa.Value) bool {
+				c, isC := x.(*ssa.Call)
+				return isC && strings.HasSuffix(engine.CallKey(c.Common()), "Unstructured.GetAnnotations") && E(c.Common().Args[0]) == "p0"
+			}, nil) {
+				ok, why = false, "SetAnnotations is given "+E(arg)+", which is not on every path the object's own annotation map: stripping the bookkeeping key must not otherwise change the desired object (a nil/other map removes metadata.annotations from desired, and the merge then deletes annotations set by others)"
+			}
+		}
+		// only the bookkeeping key is deleted, nothing is stored
+		for _, b := range nf.Blocks {
+			for _, in := range b.Instrs {
+				switch x := in.(type) {
+				case *ssa.MapUpdate:
+					ok, why = false, "stores into a map at "+p.InstrPos(in)
+				case *ssa.Call:
+					if engine.CallKey(x.Common()) == "builtin.delete" && !strings.Contains(E(x.Common().Args[1]), "last-applied") && !strings.Contains(E(x.Common().Args[1]), "LastApplied") {
+						ok, why = false, "deletes key "+E(x.Common().Args[1])
+					}
+				}
+			}
+		}
+		r.Check(rule, FK(nf)+"[strip-footprint]", p.Pos(nf.Pos()), ok, "annotations := own map minus the last-applied key", why)
 	}
 }
 
